@@ -436,6 +436,14 @@ fn main() {
         ctx.count("probe:unmodelled-operand-forms");
         if got != want { ctx.spec_fail(format!("operand form {src:?}: parser answered {got}, expected {want}")); }
     }
+    // ---- D111: a missing closing token is a diagnostic (the model has always answered `err` here)
+    for src in ["foo ( 1 , 2", "[ 1 , 2", "( 1 + 2", "a [ 1"] {
+        ctx.count("probe:D111");
+        let got = impl_answer(src);
+        if got != "err" { ctx.spec_fail(format!("D111 probe {src:?}: the closing token is missing, parser answered {got}")); }
+        let (w, _) = lex_words(src);
+        ctx.case(format!("pratt {} #D111", w.join(" ")), got);
+    }
     // ---- hard regression probes for D85 (7fe8312) and the statement boundary
     for (src, want) in [("3 +\n -2 ^ 2", "ok (add 3 (neg (pow 2 2)))"), ("3 +\n -x", "ok (add 3 (neg x))"),
                         ("true and\n not b", "ok (and true (not b))"), ("1\n- x", "partial 1 1"), ("a\n( b )", "partial 1 a")] {
